@@ -21,7 +21,8 @@ def main():
         s = s.replace(old, new, 1)
         open(p, "w").write(s)
         compile(s, p, "exec")
-        env = dict(os.environ, PYVC_ROOT=tmp, PYTHONPATH=tmp, PYTHONDONTWRITEBYTECODE="1")
+        env = dict(os.environ, PYVC_ROOT=tmp, PYTHONPATH=tmp, PYTHONDONTWRITEBYTECODE="1",
+                   PYVC_REPLAY_DIR=os.path.join(tmp, "replays"))
         r = subprocess.run([os.path.join(here, ".venv/bin/python"), "-m", "pyvc.main", prop, "--no-evidence"] + rest,
                            cwd=here, env=env)
         return r.returncode
